@@ -36,6 +36,7 @@ static void mk_file(int i) {
     gf[i].is_open = 1; gf[i].fail_writes = 0; gf[i].n_write_calls = 0; gf[i].n_read_calls = 0; gf[i].bytes_written = 0; gf[i].io_error = 0;
 }
 static void mk_common(void) {
+    gf_reset();
     mk_file(0); mk_file(1);
     verif_errno = 0; g_exit_code = -1; msg_txt[0] = 'm'; msg_txt[1] = 0;
     g_o_pos0 = gf[0].pos; g_o_pos1 = gf[1].pos; g_o_len1 = gf[1].len;
